@@ -249,6 +249,14 @@ def run(ctx):
                   any(n.startswith('std::collections::HashMap::') and n.endswith('::len') for n in blk.term.callee_names()) and
                   any(s_[0] == 'field' and s_[1] == SC + '.map' for s_ in sources(szan0, blk.term.args[0], deep=True))]
     no_counter = not ups and len(direct_len) == 1          # size() IS the number of keys of the map: nothing to keep in step
+    if no_counter:
+        # .. provided the map is keyed by the whole (query, types) key: the length of a map keyed by the query text alone (with
+        # the types one level down) counts keys that differ only in their types once
+        mf = [f_ for f_ in c.adt(SC)['variants'][0]['fields'] if f_['name'] == 'map']
+        keyed = bool(mf) and KEY in mf[0]['parts'].get('adts', [])
+        ctx.ob('R16.4', 'size() = map.len() counts (query, types) keys', keyed, ctx.where(szf0),
+               'the map whose length size() reports is not keyed by the (query, types) pair (%s): entries differing only in types are counted once' % (mf[0]['ty'] if mf else '?') if not keyed else '',
+               construct='size-len-key')
     ok_inv = got == exp or (len(len_stores) == len(ups) and by_len == mutators and bool(ups)) or no_counter
     ctx.ob('R16.4', 'size is updated only by insert (+1), remove (-1) and clear (0) - or re-derived as map.len() by every function that changes the map', ok_inv, '',
            'found %s; functions changing the map %s' % (got, mutators), construct='size-inventory', sites=[str(x) for x in got])
